@@ -236,17 +236,24 @@ func checkC09Comparator(c *Check, L *Loaded) {
 	in.Models["ast.(Alias).GetTokens"] = getter("Tokens")
 	in.Models["ast.(Alias).GetArgs"] = getter("Args")
 	// population
-	type feat struct{ length, gen, refs int }
+	type feat struct {
+		length, gen, refs int
+		strct             bool // the alias of a Kombination's constructor (ast.StructAlias) instead of a function's
+	}
 	var pop []feat
 	for _, l := range []int{2, 3} {
 		for g := 0; g <= 1; g++ {
 			for rf := 0; rf <= 2; rf++ {
-				pop = append(pop, feat{l, g, rf})
+				pop = append(pop, feat{l, g, rf, false})
 			}
+			pop = append(pop, feat{l, g, 0, true})
 		}
 	}
 	mkAlias := func(f feat) *Obj {
 		a := newObj("ast.FuncAlias")
+		if f.strct {
+			a = newObj("ast.StructAlias")
+		}
 		toks := SliceV{}
 		for i := 0; i < f.length; i++ {
 			toks.Elems = append(toks.Elems, newObj("token.Token"))
@@ -287,6 +294,12 @@ func checkC09Comparator(c *Check, L *Loaded) {
 	if !haveLess {
 		r.Und("parser.sortAliases|comparator", fi.Decl.Pos(), "no comparator handed to a sort routine was found")
 		return
+	}
+	kindOf := func(f feat) string {
+		if f.strct {
+			return " Kombination"
+		}
+		return ""
 	}
 	want := func(a, b feat) bool {
 		if a.length != b.length {
@@ -329,7 +342,7 @@ func checkC09Comparator(c *Check, L *Loaded) {
 			}
 			got[[2]int{i, j}] = t
 			if t != want(pop[i], pop[j]) {
-				bad = append(bad, fmt.Sprintf("less(len=%d generic=%d refs=%d, len=%d generic=%d refs=%d) = %v, the documented order says %v", pop[i].length, pop[i].gen, pop[i].refs, pop[j].length, pop[j].gen, pop[j].refs, t, want(pop[i], pop[j])))
+				bad = append(bad, fmt.Sprintf("less(len=%d generic=%d refs=%d%s, len=%d generic=%d refs=%d%s) = %v, the documented order says %v", pop[i].length, pop[i].gen, pop[i].refs, kindOf(pop[i]), pop[j].length, pop[j].gen, pop[j].refs, kindOf(pop[j]), t, want(pop[i], pop[j])))
 			}
 		}
 	}
@@ -338,7 +351,7 @@ func checkC09Comparator(c *Check, L *Loaded) {
 		return
 	}
 	c.extra["comparator_pairs_evaluated"] = len(pop) * len(pop)
-	r.Decide(len(bad) == 0, "parser.sortAliases|comparator", fi.Decl.Pos(), fmt.Sprintf("%d ordered pairs over length 2..3 × generic 0..1 × Referenz 0..2 agree with the documented order", len(pop)*len(pop)), strings.Join(firstN(uniq(bad), 4), "; ")+": a shorter, a generic or a by-value declaration is tried before the one the language promises")
+	r.Decide(len(bad) == 0, "parser.sortAliases|comparator", fi.Decl.Pos(), fmt.Sprintf("%d ordered pairs over length 2..3 × generic 0..1 × Referenz 0..2, function and Kombination aliases, agree with the documented order", len(pop)*len(pop)), strings.Join(firstN(uniq(bad), 4), "; ")+": a shorter, a generic or a by-value declaration is tried before the one the language promises")
 }
 
 func firstN(s []string, n int) []string {
